@@ -364,8 +364,10 @@ func (o *OperationNormalizer) setupOperationWalkers() {
 
 	if o.options.extractVariables {
 		variablesProcessing := astvisitor.NewWalkerWithID(8, "VariablesProcessing")
-		inputCoercionForList(&variablesProcessing)
+		// default values are moved into the variables first, so that list coercion
+		// and default injection see them like client provided values
 		extractVariablesDefaultValue(&variablesProcessing)
+		inputCoercionForList(&variablesProcessing)
 		injectInputFieldDefaults(&variablesProcessing)
 
 		o.operationWalkers = append(o.operationWalkers, walkerStage{
